@@ -17,8 +17,10 @@
 (* Actions: Prop(k, opt) one propagate() call by k*d0 with option opt      *)
 (*   ("plain", "cfsp2", "cfsp3": cascaded propagation is a no-op on the    *)
 (*   result); PropZero (distance 0 returns the input itself);              *)
-(*   PropList(ks) one call with a list of distances (may contain 0) ->     *)
-(*   a stack, terminal;  Fft / Ifft in Mode "fft".                         *)
+(*   PropList(ks, opt) one call with a list of distances (may contain 0)   *)
+(*   -> a stack, terminal: the plane LABELLED z = k*d0 is the single-       *)
+(*   distance result for k (a single call is labelled with its distance);   *)
+(*   Fft / Ifft in Mode "fft".                                              *)
 (***************************************************************************)
 EXTENDS Integers, Sequences, FiniteSets
 
@@ -49,7 +51,7 @@ Prop(k, opt) == /\ Mode = "prop" /\ stack = <<>> /\ steps < MaxSteps
 PropZero == /\ Mode = "prop" /\ stack = <<>> /\ steps < MaxSteps
             /\ steps' = steps + 1 /\ UNCHANGED <<net, masked, regime, stack>>
 
-PropList(ks) == /\ Mode = "prop" /\ stack = <<>> /\ steps < MaxSteps
+PropList(ks, opt) == /\ Mode = "prop" /\ stack = <<>> /\ steps < MaxSteps
                 /\ stack' = [i \in 1..Len(ks) |-> net + ks[i]]
                 /\ masked' = (masked \/ regime = "evan")
                 /\ steps' = MaxSteps        \* terminal
@@ -62,7 +64,7 @@ Ifft == /\ Mode = "fft" /\ net = "freq" /\ steps < MaxSteps
 
 Next == \/ \E k \in Ks, o \in Opts : Prop(k, o)
         \/ PropZero
-        \/ \E ks \in Lists : PropList(ks)
+        \/ \E ks \in Lists, o \in Opts : PropList(ks, o)
         \/ Fft \/ Ifft
 
 Spec == Init /\ [][Next]_vars
